@@ -2,12 +2,15 @@ CONSTANTS
  Keys = {"k1"}
  ContentLen = 4
  Ranges <- R_small
+ RepStates = {"present","absent","failing","timeout","canceled","stalled"}
  MaxOps = 1000000
  DevNoFallback = FALSE
  DevFallbackDropsRange = FALSE
  DevIndexNoFallback = FALSE
  DevWriteToReplica = TRUE
  DevListFromReplica = FALSE
+ DevNoFallbackOnCtxErr = FALSE
+ DevReplicaTimeoutShadows = FALSE
 INIT Init
 NEXT Next
 INVARIANTS C44_ReadMatchesPrimary C44_PrimaryOnly C44_ReachesPrimary
